@@ -1,22 +1,25 @@
 /-
   C17 — Expiry removes only event keys, wholly, and only after the TTL.
-  Model: `expireStep` (scanner.compactIfExpired) inside the worker loop, `timeoutRev`
+  Model: `expiry` / `expireStep` (scanner.compactIfExpired, with the event key the worker remembers as alive:
+  `liveEventRawKey`) inside the worker loop `passLoop`, `timeoutRev`
   (scanner.getTimeoutRevision over the compaction marks) with a model clock, `createHasTTL`
   (backend.create). The event-key tests are DEFINED through facts regenerated from the source
   (`Generated.eventsMatchScanner`, `eventsMatchTxn`, `eventsPrefixShape`, `eventsPattern`): if the code
   goes back to a substring match these theorems stop checking.
 -/
 import KB.Lemmas.Expire
+import KB.Lemmas.Pass
 namespace KB.C17
 open KB Generated
 
 /-- The events resource directory directly under the configured prefix: `<prefix>/events/`. -/
 def eventsDir (pfx : Bytes) : Bytes := pfx ++ [47, 101, 118, 101, 110, 116, 115, 47]
 
-/-- Only event keys: whatever expiry removes lies in the events directory (engine without native TTL). -/
-theorem only_event_keys (c : WCfg) (r : Rec) (acts : List Act) (h : expireStep c r = some acts) :
+/-- Only event keys: whatever expiry removes lies in the events directory (engine without native TTL) — whatever
+the worker remembers. -/
+theorem only_event_keys (c : WCfg) (live : Bytes) (r : Rec) (acts : List Act) (h : expireStep c live r = some acts) :
     hasPrefix r.key c.eventsPfx = true ∧ c.eventsPfx ≠ [] := by
-  unfold expireStep at h
+  unfold expireStep expiry at h
   rw [isEventKey_eq] at h
   by_cases h1 : (c.supportTTL || c.timeout == 0) = true
   · rw [if_pos h1] at h; exact absurd h (by simp)
@@ -40,11 +43,12 @@ theorem ttl_only_for_event_keys (c : Cfg) (key : Bytes) :
 theorem lookalike_never_expires :
     let pfx : Bytes := [47, 114, 101, 103, 105, 115, 116, 114, 121]               -- "/registry"
     let key : Bytes := pfx ++ [47, 112, 111, 100, 115, 47, 101, 118, 101, 110, 116, 115, 47, 112, 49]  -- "/pods/events/p1"
-    ∀ (cw : WCfg) (r : Rec), cw.eventsPfx = eventsDir pfx → r.key = key → expireStep cw r = none := by
-  intro pfx key cw r hpfx hkey
+    ∀ (cw : WCfg) (live : Bytes) (r : Rec), cw.eventsPfx = eventsDir pfx → r.key = key →
+      expireStep cw live r = none := by
+  intro pfx key cw live r hpfx hkey
   have hk : hasPrefix r.key cw.eventsPfx = false := by
     rw [hpfx, hkey]; decide
-  unfold expireStep
+  unfold expireStep expiry
   rw [isEventKey_eq, hk]
   simp
 
@@ -68,60 +72,102 @@ theorem timeout_rev_old (c : Cfg) (marks : List (Nat × Nat)) (now : Nat) (T : N
 
 /-- Never before the TTL: a record expires only if its (index) revision is at or below the timeout
 revision — i.e. at or below a revision that was already committed when a mark at least TTL old was
-taken; a key whose newest change is younger than that survives. -/
-theorem young_survive (c : WCfg) (r : Rec) (acts : List Act) (h : expireStep c r = some acts)
+taken; a key whose newest change is younger than that survives — and a version expires only if its key is not
+the one the worker remembers as alive. -/
+theorem young_survive (c : WCfg) (live : Bytes) (r : Rec) (acts : List Act) (h : expireStep c live r = some acts)
     (hnp : acts ≠ [.panic]) :
-    (r.rev = 0 → fromBE (r.val.take 8) ≤ c.timeout) ∧ (r.rev ≠ 0 → r.rev ≤ c.timeout) := by
+    (r.rev = 0 → fromBE (r.val.take 8) ≤ c.timeout) ∧ (r.rev ≠ 0 → r.rev ≤ c.timeout ∧ r.key ≠ live) := by
   unfold expireStep at h
-  by_cases h1 : (c.supportTTL || c.timeout == 0) = true
-  · rw [if_pos h1] at h; exact absurd h (by simp)
-  · rw [if_neg h1] at h
-    by_cases h2 : isEventKey c r.key = true
-    · rw [if_pos h2] at h
-      by_cases h3 : (r.rev == 0) = true
-      · rw [if_pos h3] at h
-        have hr : r.rev = 0 := by simpa using h3
-        refine ⟨fun _ => ?_, fun hne => absurd hr hne⟩
-        by_cases h4 : r.val.length < 8
-        · rw [if_pos h4] at h
-          exact absurd (Option.some.inj h).symm hnp
-        · rw [if_neg h4] at h
-          by_cases h5 : fromBE (r.val.take 8) ≤ c.timeout
-          · exact h5
-          · rw [if_neg h5] at h; exact absurd h (by simp)
-      · rw [if_neg h3] at h
-        have hr : r.rev ≠ 0 := by simpa using h3
-        refine ⟨fun h0 => absurd h0 hr, fun _ => ?_⟩
-        by_cases h5 : r.rev ≤ c.timeout
-        · exact h5
-        · rw [if_neg h5] at h; exact absurd h (by simp)
-    · rw [if_neg h2] at h; exact absurd h (by simp)
+  rcases expiry_cases c live r with h0 | ⟨_, _, _, ⟨h0, _, _⟩ | ⟨h0, hr, _, h5⟩ | ⟨h0, _, _, _⟩ | ⟨h0, hr, h5, h6⟩⟩
+  · rw [h0] at h; cases h
+  · rw [h0] at h; exact absurd (Option.some.inj h).symm hnp
+  · exact ⟨fun _ => h5, fun hne => absurd hr hne⟩
+  · rw [h0] at h; cases h
+  · exact ⟨fun h0 => absurd h0 hr, fun _ => ⟨h5, h6⟩⟩
+
+/-- An Event whose newest change is younger than the TTL keeps ALL its versions: when its revision record `i` names
+a revision above the timeout revision, the expiry step does nothing to `i` whatever the worker remembered before,
+the worker then remembers the key (`expiry … = .noLive`: `passLoop` goes on with `live = i.key`), and with the
+key remembered the expiry step produces no action for any version of that key — whatever the version's revision,
+at or below the timeout revision included. -/
+theorem young_event_keeps_all_versions (c : WCfg) (i : Rec) (hi0 : i.rev = 0) (h8 : 8 ≤ i.val.length)
+    (hy : c.timeout < fromBE (i.val.take 8)) :
+    (∀ live, expireStep c live i = none) ∧
+    (c.supportTTL = false → c.timeout ≠ 0 → isEventKey c i.key = true → ∀ live, expiry c live i = .noLive) ∧
+    (∀ r : Rec, r.key = i.key → r.rev ≠ 0 → expireStep c i.key r = none) := by
+  refine ⟨?_, ?_, ?_⟩
+  · intro live
+    unfold expireStep
+    rcases expiry_cases c live i with h0 | ⟨_, _, _, ⟨h0, _, h⟩ | ⟨h0, _, _, h⟩ | ⟨h0, _, _, _⟩ | ⟨h0, h, _, _⟩⟩
+    · rw [h0]
+    · omega
+    · omega
+    · rw [h0]
+    · exact absurd hi0 h
+  · intro hs hT hk live
+    unfold expiry
+    rw [if_neg (by simp [hs, hT]), if_pos hk, if_pos (by simp [hi0]), if_neg (by omega), if_neg (by omega)]
+  · intro r hk hr
+    unfold expireStep
+    rcases expiry_cases c i.key r with h0 | ⟨_, _, _, ⟨h0, h, _⟩ | ⟨h0, h, _, _⟩ | ⟨h0, h, _, _⟩ | ⟨h0, _, _, h⟩⟩
+    · rw [h0]
+    · exact absurd h hr
+    · exact absurd h hr
+    · exact absurd h hr
+    · exact absurd hk h
 
 /-- Wholly: for an event key whose index record says "newest change at m ≤ timeout" and all of whose
-versions are ≤ m, one pass issues a delete for the index record and for every version. -/
-theorem expire_whole (c : WCfg) (hc : c.supportTTL = false) (hT : c.timeout ≠ 0)
+versions are ≤ m, one pass issues a delete for the index record and — unless the worker remembers the key as alive,
+which it does exactly when that delete of the index record returned an error
+(`KB.C07Expire.expired_index_failure_spares_versions`) — for every version. -/
+theorem expire_whole (c : WCfg) (hc : c.supportTTL = false) (hT : c.timeout ≠ 0) (live : Bytes)
     (r : Rec) (hk : isEventKey c r.key = true) (m : Nat)
     (hidx : r.rev = 0 → 8 ≤ r.val.length ∧ fromBE (r.val.take 8) = m) (hver : r.rev ≠ 0 → r.rev ≤ m)
     (hm : m ≤ c.timeout) :
-    (r.rev = 0 → expireStep c r = some [.delcur r.ik r.val r.key]) ∧
-    (r.rev ≠ 0 → expireStep c r = some [.del r.ik r.key]) := by
+    (r.rev = 0 → expireStep c live r = some [.delcur r.ik r.val r.key]) ∧
+    (r.rev ≠ 0 → r.key ≠ live → expireStep c live r = some [.del r.ik r.key]) := by
   have h1 : ¬ (c.supportTTL || c.timeout == 0) = true := by
     simp [hc, hT]
   constructor
   · intro hr
     obtain ⟨hl, hv⟩ := hidx hr
-    unfold expireStep
+    unfold expireStep expiry
     rw [if_neg h1, if_pos hk, if_pos (by simp [hr]), if_neg (by omega), if_pos (by omega)]
-  · intro hr
+  · intro hr hl
     have := hver hr
-    unfold expireStep
-    rw [if_neg h1, if_pos hk, if_neg (by simp [hr]), if_pos (by omega)]
+    unfold expireStep expiry
+    rw [if_neg h1, if_pos hk, if_neg (by simp [hr]), if_pos (by simp [hl]; omega)]
 
-/-- Expired records produce no read result and no other action: the worker `continue`s. -/
-theorem expired_not_emitted (c : WCfg) (p : Prev) (r : Rec) (acts : List Act) (h : expireStep c r = some acts) :
-    workerStep c p r = (acts, p) := by
-  unfold workerStep
-  rw [h]
+/-- Expired records produce no read result and no other action: the worker performs the delete call(s) `acts` and
+`continue`s with `prev` unchanged (the record is neither emitted nor carried as `prev`). -/
+theorem expired_not_emitted (c : WCfg) (mask : Nat → DelOutcome) (p : Prev) (live : Bytes) (st : CompState)
+    (r : Rec) (rs : List Rec) (acts : List Act) (h : expireStep c live r = some acts) :
+    ∃ live', passLoop c mask p live st (r :: rs) =
+      (acts ++ (passLoop c mask p live' (runDeletes mask st acts) rs).1,
+       (passLoop c mask p live' (runDeletes mask st acts) rs).2) := by
+  unfold expireStep at h
+  rw [passLoop_cons]
+  cases he : expiry c live r with
+  | panic => rw [he] at h; cases h; exact ⟨live, rfl⟩
+  | idx => rw [he] at h; cases h; exact ⟨_, rfl⟩
+  | ver => rw [he] at h; cases h; exact ⟨live, rfl⟩
+  | noLive => rw [he] at h; cases h
+  | no => rw [he] at h; cases h
+
+/-! Non-vacuity: an event key under `/registry/events/` with timeout revision 5. -/
+def exCfg : WCfg := { R := 7, compact := true, timeout := 5, supportTTL := false,
+                      eventsPfx := eventsDir [47, 114, 101, 103, 105, 115, 116, 114, 121] }
+def exKey : Bytes := eventsDir [47, 114, 101, 103, 105, 115, 116, 114, 121] ++ [101]
+/-- expired revision record (newest change at 4), its version at 3, and a young revision record (newest change at 9) -/
+def exIdxOld : Rec := { key := exKey, rev := 0, val := be64 4, ik := encode exKey 0 }
+def exVer : Rec := { key := exKey, rev := 3, val := [1], ik := encode exKey 3 }
+def exIdxYoung : Rec := { key := exKey, rev := 0, val := be64 9, ik := encode exKey 0 }
+example : expireStep exCfg [] exIdxOld = some [.delcur exIdxOld.ik exIdxOld.val exKey] := by decide
+example : expireStep exCfg [] exVer = some [.del exVer.ik exKey] := by decide
+example : expireStep exCfg exKey exVer = none := by decide
+example : exIdxYoung.rev = 0 ∧ 8 ≤ exIdxYoung.val.length ∧ exCfg.timeout < fromBE (exIdxYoung.val.take 8) ∧
+    exCfg.supportTTL = false ∧ exCfg.timeout ≠ 0 ∧ isEventKey exCfg exIdxYoung.key = true := by decide
+example : isEventKey exCfg exVer.key = true ∧ (exVer.rev ≠ 0 → exVer.rev ≤ 4) ∧ 4 ≤ exCfg.timeout := by decide
 
 end KB.C17
 
@@ -131,5 +177,6 @@ end KB.C17
 #print axioms KB.C17.lookalike_never_expires
 #print axioms KB.C17.timeout_rev_old
 #print axioms KB.C17.young_survive
+#print axioms KB.C17.young_event_keeps_all_versions
 #print axioms KB.C17.expire_whole
 #print axioms KB.C17.expired_not_emitted
